@@ -343,5 +343,9 @@ func Generate(r *rng.R, tier string, n int, emit func(*common.Case)) {
 		}
 		c.Sub = sub
 		emit(c)
+		if Hung >= 2 { // the code under test hangs: what has been seen is enough for a verdict
+			fmt.Fprintf(os.Stderr, "lcv c19: %d scans did not return; stopping after %d cases\n", Hung, i+1)
+			return
+		}
 	}
 }
